@@ -131,6 +131,14 @@ func (v *VDB) TickSync(minTs int64, horizon time.Duration) (int64, int64, error)
 	}
 	before := v.RetentionRuns()
 	v.db.Tick(ts)
+	// the goroutine may still be parked because it has not taken the event off the channel yet: wait until this
+	// event's retention run has been counted before waiting for the goroutine to park again
+	for deadline := time.Now().Add(horizon); v.RetentionRuns() == before; {
+		if time.Now().After(deadline) {
+			return ts, 0, fmt.Errorf("rotation goroutine did not take Tick(%d) within %s", ts, horizon)
+		}
+		time.Sleep(200 * time.Microsecond)
+	}
 	if !v.waitRotationParked(horizon) {
 		return ts, 0, fmt.Errorf("rotation goroutine did not return to its event loop within %s of Tick(%d)", horizon, ts)
 	}
